@@ -15,8 +15,8 @@ sys.path.insert(0, os.path.dirname(os.path.abspath(__file__)))
 import vlib, xfrontcommon as X, asmcommon as A
 from vlib import Check, run3
 
-QUICK = {'xgen': 110, 'odd': 400, 'asm': 160, 'rounds': 6, 'configs': 12}
-THOROUGH = {'xgen': 2500, 'odd': 12000, 'asm': 4000, 'rounds': 9, 'configs': 16}
+QUICK = {'xgen': 260, 'odd': 400, 'asm': 160, 'rounds': 6, 'configs': 12}
+THOROUGH = {'xgen': 2500, 'odd': 9000, 'asm': 4000, 'rounds': 9, 'configs': 16}
 SETARCH = '/usr/bin/setarch'
 
 
@@ -90,28 +90,41 @@ def run_det(harness, sources, workdir, rounds, seed, nshards=16, timeout=1800, p
     nsh = max(1, min(nshards, (n + 19) // 20))
     idx = [list(range(k, n, nsh)) for k in range(nsh)]
 
-    def one(k):
-        d = os.path.join(workdir, 'det%d' % k)
+    def run_once(d, srcs, sd, tmo=None):
         os.makedirs(d, exist_ok=True)
         cf = os.path.join(d, 'cases.bin')
-        X.write_casefile(cf, [sources[i] for i in idx[k]])
+        X.write_casefile(cf, srcs)
         env = {'MALLOC_PERTURB_': str(perturb)} if perturb is not None else None
-        rc, out, err = run3([harness, 'det', cf, str(rounds), str(seed + k)], cwd=d, timeout=timeout, env=env)
+        rc, out, err = run3([harness, 'det', cf, str(rounds), str(sd)], cwd=d, timeout=tmo or timeout, env=env)
         per = {}
         for l in out.decode('latin1').split('\n'):
             t = l.split()
             if len(t) >= 6 and t[0] == 'H':
                 per.setdefault(int(t[2]), []).append(tuple(t[3:]))
         return rc, per, err.decode('latin1')[-600:]
+
+    def one(k):
+        d = os.path.join(workdir, 'det%d' % k)
+        rc, per, err = run_once(d, [sources[i] for i in idx[k]], seed + k)
+        crashed = []
+        if rc != 0:
+            # a crash/hang of the tool itself is C09's / C10's business: isolate the source, count it, go on with the others
+            per = {}
+            for j, i in enumerate(idx[k]):
+                rc1, per1, err1 = run_once(os.path.join(d, 'solo'), [sources[i]], seed + k, 300)
+                if rc1 != 0:
+                    crashed.append(i)
+                else:
+                    per[j] = per1.get(0)
+        return per, crashed
     res = [None] * n
-    fails = []
+    crashed_all = []
     with ThreadPoolExecutor(max_workers=nsh) as ex:
-        for ix, (rc, per, err) in zip(idx, ex.map(one, range(nsh))):
-            if rc != 0:
-                fails.append((rc, err))
+        for ix, (per, crashed) in zip(idx, ex.map(one, range(nsh))):
+            crashed_all += crashed
             for j, i in enumerate(ix):
                 res[i] = per.get(j)
-    return res, fails
+    return res, crashed_all
 
 
 def x_sources(ck, P):
@@ -140,6 +153,9 @@ def asm_sources(ck, P):
     for k in range(P['asm']):
         items = A.gen_layout_program(rng, big=(k % 50 == 0)) if k % 2 == 0 else A.gen_boundary_pair(rng, big=(k % 40 == 1))
         out.append({'src': A.to_source(items), 'tag': 'generated', 'name': ''})
+    import c10
+    for k in range(max(20, P['asm'] // 4)):
+        out.append({'src': c10.odd_program(rng), 'tag': 'odd', 'name': ''})
     return out
 
 
@@ -202,10 +218,10 @@ def main():
         mat = exe_matrix(exe, flag, raw, ext, wd, cfgs)
         det, fails = run_det(har, raw, wd, P['rounds'], ck.seed)
         det2, fails2 = run_det(har, raw, os.path.join(wd, 'p'), 2, ck.seed + 99, perturb=165)
-        for rc, err in fails + fails2:
-            ck.broken.append('%s determinism harness exited with %d: %s' % (tool, rc, err[-300:]))
+        crashed = sorted(set(fails) | set(fails2))
         st = {'sources': len(srcs), 'accepted': 0, 'rejected': 0, 'exe_runs': 0, 'in_process_runs': 0, 'exe_mismatch': 0, 'in_process_mismatch': 0,
-              'harness_vs_exe_mismatch': 0, 'model_compared': 0, 'model_mismatch': 0}
+              'harness_vs_exe_mismatch': 0, 'model_compared': 0, 'model_mismatch': 0,
+              'in_process_crashed_not_judged': len(crashed)}
         model = None
         if tool == 'hexasm':
             model, mrc, merr = A.run_model(hv, raw, wd)
@@ -236,7 +252,8 @@ def main():
             for dd, label in ((det, 'dirty heap/reordered'), (det2, 'MALLOC_PERTURB_=165 in-process')):
                 h = dd[k]
                 if h is None:
-                    st['in_process_missing'] = st.get('in_process_missing', 0) + 1
+                    if k not in crashed:
+                        st['in_process_missing'] = st.get('in_process_missing', 0) + 1
                     continue
                 ck.cov['evaluations'] += len(h)
                 st['in_process_runs'] += len(h)
@@ -265,6 +282,8 @@ def main():
                         st['model_mismatch'] += 1
                         c['model_diff'] = True
         stats[tool] = st
+        if st.get('in_process_missing'):
+            ck.broken.append('%s determinism harness gave no result for %d sources that did not crash' % (tool, st['in_process_missing']))
         ck.log('%s: %s' % (tool, st))
         if tool == 'hexasm' and st['model_mismatch']:
             ex = next(c for c in srcs if c.get('model_diff'))
